@@ -7,6 +7,7 @@ package utils
 
 //@ func CaseInsensitiveCompare(a, b) r
 //@   props C01
+//@   replay-go lower := func(c byte) byte { if c >= 'A' && c <= 'Z' { return c + 32 }; return c }; ref := func(a, b []byte) bool { if len(a) != len(b) { return false }; for i := range a { if lower(a[i]) != lower(b[i]) { return false } }; return true }; cases := [][2]string{{"Tran\xc5\xbffer-Encoding", "Transfer-Encoding"}, {"\xe2\x84\xaa", "k"}, {"\x00", " "}, {"Content-Length", "content-length"}, {"a", "A"}, {"[", "{"}, {"@", "`"}, {"ab", "a"}}; for _, c := range cases { if got := CaseInsensitiveCompare([]byte(c[0]), []byte(c[1])); got != ref([]byte(c[0]), []byte(c[1])) { fmt.Printf("VCGO-VIOLATED CaseInsensitiveCompare(%q, %q) = %v, ASCII-case-insensitive equality says %v\n", c[0], c[1], got, !got); return } }; for x := 0; x < 256; x++ { for y := 0; y < 256; y++ { a, b := []byte{byte(x)}, []byte{byte(y)}; if CaseInsensitiveCompare(a, b) != ref(a, b) { fmt.Printf("VCGO-VIOLATED CaseInsensitiveCompare(%q, %q) = %v\n", a, b, !ref(a, b)); return } } }
 //@   top-ensures r == (len(a) == len(b) && forall(k, 0, len(a), asciiLower(a[k]) == asciiLower(b[k])))
 //@   loop 0:
 //@     invariant 0 <= i && i <= len(a) && len(a) == len(b)
